@@ -274,10 +274,13 @@ PROPS = {
                     "2-3 senders issue auto-starting calls, StartServiceByName and NO_AUTO_START calls to the same and different names before, while and after the service comes up; virtual time passes in thirds of and beyond service_start_timeout. "
                     "Checked: the process-start log shows exactly one start per activation; joined requests spawn nothing; once the name is taken every StartServiceByName waiter gets SUCCESS and the service's receive log equals the held calls in arrival order followed by later direct calls, each answered to its caller with its token; "
                     "on exec failure, non-zero exit, kill or timeout every waiting request gets exactly one error from the bus and no success; NO_AUTO_START calls are refused at once and start nothing; no reply is left unexplained; nothing leaks at shutdown. "
-                    "Helper part (c19_helper): see DESIGN.md."),
+                    "Helper part (c19_helper): run_launch_helper() (test variant of bus/activation-helper.c) in a forked child with name arguments from 4 valid, 14 invalid shapes (empty, no period, empty element, path traversal, trailing newline/space, leading digit, '/' and '-' forms), names of 250-259 bytes and unique names, "
+                    "against 1-2 configured and one unconfigured service directory holding generated <name>.service files: valid, mismatching Name, missing Name/Exec/User, keys under another section, unparsable, unterminated quote, missing program, with comments and decoy sections; Exec lines carry 0-3 arguments over [a-zA-Z0-9/._- '\"\\] rendered with four quoting styles. "
+                    "Oracle: independent reading of the generated files (first loadable file in configured order decides) gives EXEC / NO-EXEC; an executed program's argv (logged by the stub) must equal /bin/sh's splitting of the Exec line."),
         level_note="The service is a real child process, so each case costs ~0.2 s and waits use bounded real time (10 s) besides the virtual clock; exit status 0 without taking the name is modelled as 'pending until the timeout' as bus/activation.c documents. Policy-denied held messages, systemd activation and <servicehelper> (setuid helper launched by the bus) are not driven.",
         rule=("case = history decoded from generated bytes. Non-trivial = >=2 requests were waiting on one activation when it succeeded or failed; distinct = FNV-1a of the normalised log."),
-        phases=[P(kind="enum", bin="c19_activation_enum", nopool_odd=True, quick=["1400", "96"], thorough=["200000", "96"], shards_quick=14, shards_thorough=16, env={"ASAN_OPTIONS": "abort_on_error=0:detect_leaks=0:symbolize=1:allocator_may_return_null=1:detect_odr_violation=0:handle_abort=1"})],
+        phases=[P(kind="enum", bin="c19_helper_enum", quick=["6000", "96"], thorough=["600000", "96"], shards_quick=12, shards_thorough=16, env={"ASAN_OPTIONS": "abort_on_error=0:detect_leaks=0:symbolize=1:allocator_may_return_null=1:detect_odr_violation=0:handle_abort=1"}),
+                P(kind="enum", bin="c19_activation_enum", nopool_odd=True, quick=["1400", "96"], thorough=["200000", "96"], shards_quick=14, shards_thorough=16, env={"ASAN_OPTIONS": "abort_on_error=0:detect_leaks=0:symbolize=1:allocator_may_return_null=1:detect_odr_violation=0:handle_abort=1"})],
         floor_quick=150, floor_thorough=10000,
     ),
     "C20": P(
